@@ -35,6 +35,9 @@ const PREFIXES: &[&str] = &[
     "set_role_then_begin",
     "sql_prepare_then_begin",
     "set_guc_then_begin_failed",
+    "set_guc_then_sql_prepare",
+    "sql_prepare_then_set_guc",
+    "set_role_then_sql_prepare",
 ];
 
 const STOPS: &[&str] = &[
@@ -238,6 +241,20 @@ fn run_case(case: &Case, rep: &Report) -> Result<(), String> {
                 ok(a.query(&format!("SELECT 1 {}", t("err=pre")), 5000), "failing stmt")?;
             }
         }
+        "set_guc_then_sql_prepare" | "sql_prepare_then_set_guc" | "set_role_then_sql_prepare" => {
+            // two kinds of session state created in one checkout: both must be reset. In session
+            // mode they are separate statements of the session; in transaction mode one
+            // multi-statement query (a single checkout)
+            let set = if case.prefix.starts_with("set_role") { "SET ROLE other_role" } else { "SET work_mem TO '64MB'" };
+            let prep = "PREPARE p1 AS SELECT 1";
+            let (x, y) = if case.prefix.starts_with("sql_prepare") { (prep, set) } else { (set, prep) };
+            if case.mode == "session" {
+                ok(a.query(&format!("{} {}", x, t("")), 5000), "first state")?;
+                ok(a.query(&format!("{} {}", y, t("")), 5000), "second state")?;
+            } else {
+                ok(a.query(&format!("{} {}; {} {}", x, t(""), y, t("")), 5000), "both states")?;
+            }
+        }
         "begin_set_then_commit_later" => {
             // SET inside a block is don't-care for GUC cleanliness; used for txn state only
             ok(a.query(&format!("BEGIN {}", t("")), 5000), "begin")?;
@@ -389,7 +406,27 @@ fn run_case(case: &Case, rep: &Report) -> Result<(), String> {
         }
     };
     let probe = format!("SELECT 1 {}", tag("B", "B.probe", "vstate"));
-    let r = b.query(&probe, 6000);
+    let mut r = b.query(&probe, 6000);
+    // a refusal by the pooler itself (checkout timed out, its own statement timeout fired on the
+    // probe) says nothing about the state of a connection B was never given, and on a loaded
+    // machine it happens to a correct pooler: B asks again (fresh connection); only a refusal that
+    // persists is reported
+    for _ in 0..3 {
+        let refused = match &r {
+            Ok(m) => summarize(m).contains("58000"),
+            Err((m, _)) => summarize(m).contains("58000"),
+        };
+        if !refused {
+            break;
+        }
+        rep.count("probe_refused_by_pooler_and_repeated", 1);
+        sleep_ms(700);
+        b = match connect(&cell, if case.same_app { "A" } else { "B" }) {
+            Ok(b) => b,
+            Err(_) => break,
+        };
+        r = b.query(&probe, 6000);
+    }
     let labels = cell.labels();
     let evs = cell.log.since(n0);
     let session_excerpt: Vec<String> = cell
